@@ -42,8 +42,12 @@ func (pConn *PFCPConn) handleSessionEstablishmentRequest(msg message.Message) (m
 		return pfdres, errUnmarshal(err)
 	}
 
-	if sereq.NodeID == nil || sereq.CPFSEID == nil {
-		return errUnmarshalReply(errMandatoryIEMissing, nil)
+	if sereq.NodeID == nil {
+		return errUnmarshalReply(errMandatoryIEMissing, ie.NewOffendingIE(ie.NodeID))
+	}
+
+	if sereq.CPFSEID == nil {
+		return errUnmarshalReply(errMandatoryIEMissing, ie.NewOffendingIE(ie.FSEID))
 	}
 
 	nodeID, err := sereq.NodeID.NodeID()
